@@ -6,7 +6,7 @@ From Coq Require Import ZArith List Bool Lia.
 From Low Require Import Lib.MachInt Lib.Bits Lib.Lex Lib.Bytes Spec.Bmtree Spec.PathSpec Spec.ContractSpec Spec.PathWideSpec
   Model.BmtreePath Model.BmtreePathStr Model.BmtreePathWide Proofs.BmtreePathProofs
   Proofs.BmtreePathFamily Proofs.BmtreePathRawFields Proofs.BmtreeNewPathRaw Proofs.BmtreePathRebuild
-  Model.BmtreeIndex Proofs.BmtreePathWideExtra.
+  Model.BmtreeIndex Proofs.BmtreePathWideExtra Proofs.BmtreePathText.
 Import ListNotations.
 Open Scope Z_scope.
 
@@ -313,6 +313,49 @@ Example C10_wide2_nonvacuous :
   pathCheck (enc 30 [true; false; true]) = true /\
   pathCheck 0x500000000 = true /\ is_some (dec_word 0x500000000 (PathHeight 0x500000000)) = false /\
   pathCheck (enc 31 [true]) = false /\ is_some (dec_word (enc 31 [true]) (PathHeight (enc 31 [true]))) = true.
+Proof. repeat apply conj; vm_compute; reflexivity. Qed.
+
+(** ** the text of a path *)
+(** text order (strings.Compare of PathStr) = numeric order of the words = pre-order *)
+Theorem C10_str_order : forall h q1 q2, (h <= 32)%nat -> (length q1 <= h)%nat -> (length q2 <= h)%nat ->
+  bytes_cmp (PathStr (enc h q1)) (PathStr (enc h q2)) = (enc h q1 ?= enc h q2).
+Proof. exact PathStr_order. Qed.
+Print Assumptions C10_str_order.
+
+Theorem C10_node_str_order : forall q1 q2, bytes_cmp (node_str q1) (node_str q2) = bits_cmp q1 q2.
+Proof. exact node_str_cmp. Qed.
+Print Assumptions C10_node_str_order.
+
+(** word -> PathStr -> ParseUint base 2 -> NewPath gives the word back *)
+Theorem C10_str_parse : forall h q, (h <= 32)%nat -> (length q <= h)%nat ->
+  let s := PathStr (enc h q) in
+  NewPath_full (shl64 (parse_bin s) (Z.of_nat h - BitSeq.zlen s)) (BitSeq.zlen s) (Z.of_nat h) = Some (enc h q).
+Proof. exact PathStr_parse. Qed.
+Print Assumptions C10_str_parse.
+
+Theorem C10_str_order_checker_sound : forall h q1 q2, (h <= 32)%nat -> (length q1 <= h)%nat -> (length q2 <= h)%nat ->
+  strorder_ok q1 q2 (cmp_sign (bytes_cmp (PathStr (enc h q1)) (PathStr (enc h q2))))
+    (PathStr (enc h q1)) (PathStr (enc h q2)) = true.
+Proof. exact strorder_ok_model. Qed.
+Print Assumptions C10_str_order_checker_sound.
+
+(** ** limits of the property: the root's word is 0 at every height (so PathHeight is
+    claimed for |q| >= 1 only), and words of DIFFERENT heights do not compare in pre-order *)
+Theorem C10_root_word : forall h, enc h [] = 0 /\ PathHeight (enc h []) = 0 /\ PathStr (enc h []) = [].
+Proof. exact root_word. Qed.
+Print Assumptions C10_root_word.
+
+Theorem C10_mixed_heights_refuted :
+  exists h1 h2 q1 q2, (h1 <= 32)%nat /\ (h2 <= 32)%nat /\ (length q1 <= h1)%nat /\ (length q2 <= h2)%nat /\
+    pre_lt q1 q2 /\ enc h2 q2 < enc h1 q1.
+Proof. exact mixed_heights_refuted. Qed.
+Print Assumptions C10_mixed_heights_refuted.
+
+Example C10_text_nonvacuous :
+  PathStr (enc 6 [true; false; false]) = [49; 48; 48] /\ parse_bin [49; 48; 48] = 4 /\
+  NewPath_full (shl64 4 (6 - 3)) 3 6 = Some (enc 6 [true; false; false]) /\
+  bytes_cmp (PathStr (enc 6 [true; false; false])) (PathStr (enc 6 [true; false])) = Gt /\
+  (enc 6 [true; false; false] ?= enc 6 [true; false]) = Gt.
 Proof. repeat apply conj; vm_compute; reflexivity. Qed.
 
 (** non-vacuity of the widening: a call outside the documented range (height 40: the
